@@ -46,6 +46,16 @@ impl VisitMut for DropTrailingPlus {
     }
 }
 
+/// `where <T>::Assoc: Trait` is read as generic parameters on the where-clause, `where (<T>::Assoc): Trait` is not.
+pub fn paren_qself_without_trait(p: &mut syn::WherePredicate) {
+    if let syn::WherePredicate::Type(t) = p {
+        if matches!(&t.bounded_ty, Type::Path(tp) if matches!(&tp.qself, Some(q) if q.as_token.is_none())) {
+            let ty = &t.bounded_ty;
+            t.bounded_ty = parse_quote!((#ty));
+        }
+    }
+}
+
 pub fn expand_self<T: VisitableMut + Clone>(input: &T, to: &Type) -> T {
     struct ExpandSelfVisitor<'a> {
         to: &'a Type,
